@@ -32,7 +32,7 @@ CHECKS["C01"] = dict(
         "and, by prefix-closure, every instant at which the process or machine stops, with every file not fsynced since its last change arbitrary after the crash: todo visible => message file = Received line + supplied bytes, "
         "envelope well-formed and stored exactly; exit 0 => visible and durable; non-zero exit => never visible; leftovers only pid/pid+mess/mess/mess+intd; exit 91/11 only by the envelope scanner's verdict; "
         "the scanner accepts exactly F sender NUL (T rcpt NUL)* NUL with NUL-free addresses <= 1002 bytes (soundness and completeness); alarm(DEATH) first with DEATH < OSSIFIED (constants regenerated from the sources). "
-        "Tied to the code by replaying the real qmail-queue's traces, recorded under an in-memory POSIX simulator for ~1000/5000 (input, chunking, fault) cases, through the acceptor, and by judging every concrete crash state (call index x 5 loss resolutions) with the property oracle.",
+        "Tied to the code by replaying the real qmail-queue's traces, recorded under an in-memory POSIX simulator for ~12700/33500 (input, chunking, fault list) cases - well-formed and malformed/truncated/over-long envelopes, every call index x {EIO, ENOSPC, short write, EINTR} also on the runs whose input fails by itself (so every call inside cleanup() is faulted), fault pairs, random fault chains of up to 3 - through the acceptor, and by judging every concrete crash state (call index x 5 loss resolutions) and every final state with the property oracle.",
    note=NOTE_COMMON + "Modelled, not verified: the OS semantics of DESIGN.md 1.4 as implemented by harness/sim.c (synchronous atomic directory operations, fsync durability, arbitrary loss of un-fsynced data, unique inode numbers); SIGALRM delivery is not exercised by the harness (the acceptor has no alarm-kill event yet); the Received line is a parameter.",
    technique="Lean 4 proof (inductive invariant over a system-call trace acceptor + crash relation; scanner soundness/completeness) + trace-replay correspondence with the real qmail-queue under a simulated libc with fault and crash injection",
    design="DESIGN.md §2 C01")
